@@ -330,9 +330,9 @@ func cmdCheck(args []string) int {
 		"property_id": pid, "tier": *tier, "seed": seed, "level": level, "coverage": cov,
 		"assumptions": assumptions, "wall_s": round3(wall), "violations": violations,
 	}
-	os.MkdirAll(filepath.Join(vdir, "evidence"), 0o755)
+	os.MkdirAll(filepath.Join(outDir(vdir), "evidence"), 0o755)
 	eb, _ := json.MarshalIndent(ev, "", " ")
-	os.WriteFile(filepath.Join(vdir, "evidence", pid+".json"), eb, 0o644)
+	os.WriteFile(filepath.Join(outDir(vdir), "evidence", pid+".json"), eb, 0o644)
 
 	for _, l := range lines {
 		fmt.Println(l)
@@ -355,8 +355,16 @@ func matchKnown(known []KnownFinding, pid, obl string) *KnownFinding {
 	return nil
 }
 
+// outDir is where evidence and replay files go: /verif, unless a self-test redirects them.
+func outDir(vdir string) string {
+	if d := os.Getenv("VERIF_EVIDENCE_DIR"); d != "" {
+		return d
+	}
+	return vdir
+}
+
 func reportBroken(vdir, pid, tier string, seed int, ps *PropertySpec, stage, msg string, t0 time.Time) int {
-	dir := filepath.Join(vdir, "replays", pid)
+	dir := filepath.Join(outDir(vdir), "replays", pid)
 	os.MkdirAll(dir, 0o755)
 	path := filepath.Join(dir, "load-failure.txt")
 	os.WriteFile(path, []byte("stage: "+stage+"\n\n"+msg+"\n"), 0o644)
@@ -365,9 +373,9 @@ func reportBroken(vdir, pid, tier string, seed int, ps *PropertySpec, stage, msg
 		"coverage": map[string]any{"explanation": "the repository did not load/type-check with -tags verif; no obligation could be generated: " + firstLines(msg, 3)},
 		"assumptions": []string{}, "wall_s": round3(time.Since(t0).Seconds()), "violations": 1,
 	}
-	os.MkdirAll(filepath.Join(vdir, "evidence"), 0o755)
+	os.MkdirAll(filepath.Join(outDir(vdir), "evidence"), 0o755)
 	eb, _ := json.MarshalIndent(ev, "", " ")
-	os.WriteFile(filepath.Join(vdir, "evidence", pid+".json"), eb, 0o644)
+	os.WriteFile(filepath.Join(outDir(vdir), "evidence", pid+".json"), eb, 0o644)
 	fmt.Printf("VIOLATION property=%s replay=%s obligation=%s no-failing-input-found\n", pid, path, stage)
 	return 1
 }
